@@ -118,3 +118,29 @@ func (e *Exec) cell(p unsafe.Pointer) *shadowCell {
 func sortKeys[K comparable](keys []K) {
 	sort.Slice(keys, func(i, j int) bool { return fmt.Sprint(keys[i]) < fmt.Sprint(keys[j]) })
 }
+
+func mapPtr[K comparable, V any](m map[K]V) unsafe.Pointer {
+	return *(*unsafe.Pointer)(unsafe.Pointer(&m))
+}
+
+// MapR records a read of the contents of m and returns m.
+func MapR[K comparable, V any](m map[K]V, site string) map[K]V {
+	e := cur
+	if e == nil || !e.cfg.Race || e.abort || e.running == nil || m == nil {
+		return m
+	}
+	p := (*byte)(mapPtr(m))
+	R(p, site)
+	return m
+}
+
+// MapW records a write of the contents of m and returns m.
+func MapW[K comparable, V any](m map[K]V, site string) map[K]V {
+	e := cur
+	if e == nil || !e.cfg.Race || e.abort || e.running == nil || m == nil {
+		return m
+	}
+	p := (*byte)(mapPtr(m))
+	W(p, site)
+	return m
+}
